@@ -146,7 +146,7 @@ def run(ctx):
                         "steady phases are declared by the driver only after Snapshot().Online showed the transition; counters "
                         "are read as deltas at quiescence (polled; given up after 60 s without progress)",
                         "a throttled endpoint that stays connected is treated as healthy once it has caught up",
-                        "stall-resume: 'writer blocked' is observed as no line written to the connection for max(30 ms, 2 flush periods) while "
-                        "lines are being dropped; the pause then lasts max(400 ms, 12 flush periods) longer; identity at quiescence "
+                        "stall-resume: 'writer blocked' is observed as no line written to the connection while lines keep coming and are being "
+                        "dropped (>= 50); the endpoint resumes only after that has lasted max(400 ms, 12 flush periods) without interruption; identity at quiescence "
                         "handed = received + slow_conn + conn_down_no_spool (the last is 0 unless the relay gave the connection up)"]
     cov["trusted_base"] = ["TLC", "harness/dest driver (records only)", "kernel loopback TCP"]
